@@ -12,7 +12,8 @@ from d42.declaration.types import Schema
 
 NAN = float("nan")
 INT_U = [0, 1, -1, 3, 5, True, False, 2 ** 63, -2]
-FLOAT_U = [0.0, 1.0, -1.5, 3.0, 1e308, NAN, float("inf"), 0.1]
+FLOAT_U = [0.0, 1.0, -1.5, 3.0, 1e308, NAN, float("inf"), 0.1, 0.3, 0.1 + 0.2, 1.0000000000000002, 0.9999999999999999,
+           1.0 + 5e-10, 1.0 - 5e-10, -1.5000000000000002]
 STR_U = ["", "a", "ab", "abc", "ba", "xyz", "b"]
 BAD_U = [None, ..., Nil, "1", 1.0, 2, [1], {"a": 1}, (1,), object(), b"x", True]
 PATTERNS = ["a", "^ab", "[a-c]+", "b$", "(", "x{2,1}", r"\d", ""]
